@@ -8,6 +8,8 @@ kani_unit("fri_lib", "winter-fri", "fri/src/lib.rs", "kani/fri_lib.rs", "", [
       bounded="position lists of length 3 (16-bit symbolic values, domain size 2^2..2^12, folding factor symbolic)"),
     H("fri_map_positions_contract", ["C15", "C06"], ["utils::map_positions_to_indexes"],
       "forall domains 2^2..2^24, folding factors, partition counts 2^0..: identity for one partition; injective; < folded size; index == (p mod P) * (T/P) + p div P"),
+    H("fri_map_positions_total_contract", ["C06"], ["utils::map_positions_to_indexes"],
+      "forall domains 2^2..2^32, folding factors 2..16, partition counts 2^0..2^63 (every value a parsed proof can carry), positions below the folded size: no overflow, no division by zero, one index per position"),
     H("fri_lib_canary_must_fail", ["C15", "C05"], [], "false claim: fewer than 5 layers for every domain", canary=True),
 ])
 for u in UNITS:
